@@ -263,7 +263,10 @@ def run_history(h):
                 if like is None:
                     like = reg(e.operands[1])
                 ident = fa_expr.toidentifier(v)
-                lines.append(f"const {ident} {type(v).__name__} {like}")
+                # the value component of the registration key (whatever the repo puts there: value, type name,
+                # str(value) ...) is an INPUT of the model: identity of constants is C07's subject, not C09's
+                keytok = re.sub(r"\s+", "", repr(e.key[1]))
+                lines.append(f"const {ident} {keytok} {like}")
                 obs.append(f"id {reg(e)}")
             elif k == "node":
                 kind = op[1]
